@@ -497,7 +497,7 @@ Section Proxy.
                                 if nlen uname =? 0 then rmclrqexit st []
                                 else
                                   let acct := code =? Consts.RAD_Accounting_Request in
-                                  match id2realm (cf_realms cfg) (cstr uname) with
+                                  match (if existsb (N.eqb 0) uname then None else id2realm (cf_realms cfg) (cstr uname)) with
                                   | None => exit st []
                                   | Some rl =>
                                       let '(to, st) := choose st (if acct then rl_acc rl else rl_srv rl) in
